@@ -64,6 +64,19 @@ def grl_val(x: float, f: E.Val, g: E.Val | None, dt: float, delta: float, g_iden
 def own_g(ref, pt, state) -> E.Val:
     """g = d(rate of state)/d(state), all other names frozen, as a Val with the AD's error bound."""
     r = ref.own_gradient(pt, state)
+    if r.dm != 0:
+        # conditioning of the linearisation in float64: the same derivative evaluated with 53-bit arithmetic (values such
+        # as 1 - H with H = 1 - 2e-16 lose all their digits there, which the first-order bound on d does not see)
+        old = E.ctx.prec
+        try:
+            E.ctx.prec = 53
+            r53 = ref.own_gradient(pt, state)
+        except (E.Undefined, E.Undecidable, E.Unsupported, ZeroDivisionError):
+            r53 = None
+        finally:
+            E.ctx.prec = old
+        if r53 is None or abs(r53.d - r.d) > mpf("1e-9") * abs(r.d) + mpf("1e-300"):
+            raise E.Undecidable("linearisation ill-conditioned in float64")
     return E.Val(r.d, 1000 * U * r.dm, r.dm == 0)
 
 
